@@ -170,6 +170,39 @@ def t_since(r) -> int:
     return int(r.det.num_instances)
 
 
+def check_long(out: Outcome, rng, p: dict, n_long: int, runners: list) -> None:
+    """a stationary stream of tens of thousands of values (the window must keep ALL of them while nothing changes: more than a dozen bucket rows),
+    then a shift; window bookkeeping against the stream at checkpoints, the model at the same checkpoints (updates in between are not read)"""
+    r = dets.Runner("a", "ADWIN", p)
+    if r.det is None:
+        return
+    d = r.det
+    xs = [rng.random() for _ in range(n_long)] + [2.0 + rng.random() for _ in range(400)]
+    cut_seen = ever_drift = False
+    for t, x in enumerate(xs, 1):
+        look = t % 1500 == 0 or t == n_long or t == len(xs)
+        r.update(x, observe=look)
+        if r.err is not None:
+            out.violation(f"ADWIN: update raised {type(r.err).__name__}: {r.err} at update {t} of a long stationary stream", {"class": "ADWIN", "params": p, "n": t, "kind": "long"})
+            break
+        ever_drift = ever_drift or bool(d.drift)
+        if not look:
+            continue
+        w = int(d.width)
+        win = xs[t - w: t]
+        rep = {"class": "ADWIN", "params": p, "stream_seeded": True, "n": t, "kind": "long"}
+        if not (0 < w <= t) or abs(float(d.total) - math.fsum(win)) > 1e-7 * max(1.0, w) or abs(float(d.variance) - ssd(win)) > 1e-6 * max(1.0, w):
+            out.violation(f"ADWIN: after {t} updates width={w}, total={float(d.total)!r}, variance={float(d.variance)!r} are not count/sum/SSD of the last {w} values "
+                          f"(sum {math.fsum(win)!r}, SSD {ssd(win)!r})", rep)
+            break
+        if t <= n_long and w < t and not ever_drift:
+            out.violation(f"ADWIN: the window holds {w} of {t} values of a stationary stream although no drift was ever reported (data dropped silently)", rep)
+            break
+        cut_seen = cut_seen or w < t
+    runners.append(r)
+    out.case({"class": "ADWIN", "params": p, "n": len(xs), "long": True}, nontrivial=cut_seen)
+
+
 def run(out: Outcome) -> None:
     rng = rng_for(out.seed, "C05")
     thorough = out.tier == "thorough"
@@ -225,6 +258,9 @@ def run(out: Outcome) -> None:
         from common import VERIF
         w = json.loads((VERIF / "corpus" / "findings" / "KF-C05-1.json").read_text())
         check(out, w["params"], w["stream"], [])
+    for _ in range(2 if thorough else 1):
+        m = rng.choice([1, 1, 2]) if thorough else 1
+        check_long(out, rng, {"clock": 32, "delta": 0.002, "m": m, "min_window_size": 5, "min_num_instances": 10}, (17500 if m == 1 else 34000) + rng.randint(0, 1500), runners)
     corr.compare_batch(out, runners, rtol=1e-7)
 
 
